@@ -255,6 +255,8 @@ pub(crate) enum ExprErrorKind {
     DivisionByZero,
     #[error("Cannot generate a random number below {0}")]
     EmptyRandomRange(i64),
+    #[error("The function {0} is not implemented")]
+    FunctionNotImplemented(&'static str),
 }
 
 /// Could not construct static iterator
